@@ -74,6 +74,7 @@ class DynamicNode(Node):
 
     def _mul_with_fixed(self, other, swap_inputs=False):
         infer_types(self, other)
+        type_ = self.type
         if other.type == TScalar:
             tr = other.value
         elif self.type == TScalar and other.type == TAnyVocab:
@@ -83,12 +84,15 @@ class DynamicNode(Node):
             )
         elif isinstance(other.type, TVocabulary):
             if self.type == TScalar:
-                tr = other.evaluate().v
+                # dynamic scalar scaling a fixed pointer: (d, 1) transform
+                # producing a pointer of the fixed operand's vocabulary
+                tr = np.atleast_2d(other.evaluate().v).T
+                type_ = other.type
             else:
                 tr = other.evaluate().get_binding_matrix(swap_inputs=swap_inputs)
         else:
             raise AssertionError("Unexpected node type in multiply.")
-        return Transformed(self, tr, self.type)
+        return Transformed(self, tr, type_)
 
     def _mul_with_dynamic(self, other, swap_inputs=False):
         type_ = infer_types(self, other)
